@@ -139,6 +139,16 @@ def run(prop, key, direction):
     # the registration reaches GenericParser.claim_validators under the claim's key (plumbing)
     plumbing(res, prop, facts, strict=False)
     table_monotone(res, prop + ".R5", facts)
+    # the GenericParser that PasetoParser wraps (whose extend_validation_claims can replace the default validators) is not reachable
+    # through the wrapper
+    from .. import layers
+    for f in layers.encapsulation(facts, prop + ".R6", "PasetoParser", "GenericParser"):
+        res.oblige(f.ok)
+        if f.ok:
+            res.inst(f.rule, f.desc)
+        else:
+            res.violate(f.rule, f.where, f.construct, f.msg, file=f.file, line=f.line)
+    res.floor(prop + ".R6", 2)
     # R4: the registered validator is actually invoked with the payload's value and its verdict honoured (verify_claims rules of C16)
     from .. import claims as CL
     for f in CL.analyse(facts):
